@@ -25,6 +25,9 @@ SumFun(f, S) == IF S = {} THEN 0 ELSE LET x == CHOOSE y \in S : TRUE IN f[x] + S
 \* an event that bin/vcheck marked as an instance of a listed known finding (known_findings.jsonl):
 \* it is still consumed and applied to the tracked state, but its property invariants are skipped
 IsKnown(e) == "kfmark" \in DOMAIN e /\ e.kfmark
+\* a known finding recorded with signature.scope = "invariant" suspends only the invariant it names on the
+\* events it matches ("kfinv" lists those names); every other invariant of the event stays in force
+IsKnownFor(e, inv) == "kfinv" \in DOMAIN e /\ \E i \in 1..Len(e.kfinv) : e.kfinv[i] = inv
 
 \* acceptance: every line was consumed (one state per line + the initial state)
 Accepted == TLCGet("stats").diameter - 1 = Len(Trace)
